@@ -56,7 +56,17 @@ pub fn run_stream(
     // are transparent (C05: a clone continues identically; C06: so does a restored copy): at one step
     // the instance is replaced by its clone, at another by deserialize(serialize(self)).
     let len = inputs.len();
-    let perturb_at: [usize; 2] = if len % 2 == 0 && len > 4 { [len / 3, (2 * len) / 3 + 1] } else { [usize::MAX, usize::MAX] };
+    // (clone-swap position, serde-swap position): mid-stream for a quarter of the streams, right after
+    // the first input(s) for another quarter (state that has just been seeded)
+    let perturb_at: [usize; 2] = if len <= 4 {
+        [usize::MAX, usize::MAX]
+    } else if len % 4 == 0 {
+        [len / 3, (2 * len) / 3 + 1]
+    } else if len % 4 == 2 {
+        [2, 1]
+    } else {
+        [usize::MAX, usize::MAX]
+    };
     let with_prefix = |upto: usize| -> serde_json::Value {
         let mut ops: Vec<serde_json::Value> = prefix.iter().map(|x| x.to_json()).collect();
         if !prefix.is_empty() {
